@@ -77,6 +77,17 @@ Proof.
   intros s x i H. destruct ({A}_step_homogeneous s x i) as [E1 [E2 _]]. rewrite E1, E2, H. reflexivity.
 Qed.
 
+(* change of the time unit: dt -> s dt, v -> v / s, a -> a / s^2, C -> s C, M -> s^2 M (forces, K, u unchanged) gives the
+   same right-hand side and system row, and returns the same u, v / s, a / s^2 -- the schemes carry no hidden time scale *)
+Local Notation GT f s y := (f I K (oscal s C) (oscal (s ^ 2) M) (s * dt) beta gamma alpha u_n (vscal (/ s) v_n) (vscal (/ s ^ 2) a_n) y bN F).
+Theorem {A}_time_rescaling : forall s x i, s <> 0 ->
+  GT {A}_rhs s ({XT}) i = G {A}_rhs x i /\
+  (GT {A}_sysop s ({XT})) ({XT}) i = {A}_A x i /\
+  GT {A}_up_u s ({XT}) i = G {A}_up_u x i /\
+  GT {A}_up_v s ({XT}) i = / s * G {A}_up_v x i /\
+  GT {A}_up_a s ({XT}) i = / s ^ 2 * G {A}_up_a x i.
+Proof. intros s x i Hs; unfold {A}_A; repeat split; vf. Qed.
+
 (* row i of the system minus row i of the right-hand side of _Solver_Apply_Neumann
    = residual of the equation of motion at dof i *)
 Theorem {A}_eom_identity : forall x i,
@@ -280,6 +291,7 @@ Qed.
 import re
 for A, sp in specs.items():
     d = dict(sp)
+    d.setdefault("XT", "vscal (/ s ^ 2) x" if A == "euler_explicit" else "x")
     txt = TPL
     for k, v in d.items():
         txt = txt.replace("{%s}" % k, v)
